@@ -29,6 +29,9 @@ def data():
         "frame": np.cumsum(rs.randint(1, 4, N)).astype(np.int64),
         "index_online": np.arange(3, N + 3, dtype=np.int64),
     }
+    # one image-like feature: 48 bytes per event, i.e. one HDF5 chunk
+    # boundary (1 MiB) inside the measurement
+    ev["image"] = rs.randint(0, 255, (N,) + gen.IMG_SHAPE).astype(np.uint8)
     ev["deform"][12000:12500] = np.nan          # a whole stretch
     ev["deform"][[0, N - 1]] = np.nan
     ev["bright_avg"][:PARTS[0]] = np.nan        # an all-NaN first append
@@ -106,7 +109,8 @@ def violations(prop, scratch):
                                 f"{f} written in appends of {PARTS}",
                                 feat=f)
                 else:
-                    stats_ok(ds, feats, "dclab.rtdc_dataset.writer:"
+                    stats_ok(ds, [f for f in feats if f != "image"],
+                             "dclab.rtdc_dataset.writer:"
                              "RTDCWriter.write_ndarray", "appends")
         if prop in ("C03", "C02", "C07", "C08", "C20"):
             mask = expected_mask(ev)
@@ -133,7 +137,8 @@ def violations(prop, scratch):
                             array="all", case_="limit")
                 if prop in ("C02", "C07", "C08", "C20"):
                     exp_p = d / "exp.rtdc"
-                    ds.export.hdf5(exp_p, features=["deform", "frame"],
+                    ds.export.hdf5(exp_p, features=["deform", "frame",
+                                                    "image"],
                                    filtered=True, basins=True)
             if prop in ("C02", "C07", "C08", "C20"):
                 with dclab.new_dataset(exp_p) as de:
@@ -141,7 +146,7 @@ def violations(prop, scratch):
                         if len(de) != len(sel):
                             bad("dclab.rtdc_dataset.export:Export.hdf5",
                                 "wrong-length", f"{len(de)} != {len(sel)}")
-                        for f in ("deform", "frame"):
+                        for f in ("deform", "frame", "image"):
                             if not same(de[f][:], ev[f][sel]):
                                 bad("dclab.rtdc_dataset.export:Export.hdf5",
                                     "wrong-feature-data",
@@ -172,6 +177,8 @@ def violations(prop, scratch):
                         with dclab.new_dataset(q) as dq:
                             if prop == "C08":
                                 for f in feats:
+                                    if task == "condense" and f == "image":
+                                        continue     # scalar features only
                                     if f not in dq or not same(dq[f][:],
                                                                ev[f]):
                                         bad(f"dclab.cli.task_{task}:{task}",
@@ -179,7 +186,9 @@ def violations(prop, scratch):
                                             f"{N}-event file", task=task,
                                             kind="scalar")
                             else:
-                                stats_ok(dq, feats, "dclab.rtdc_dataset."
+                                stats_ok(dq, [f for f in feats
+                                              if f != "image"],
+                                         "dclab.rtdc_dataset."
                                          "copier:rtdc_copy", task)
                         q.unlink()
         if prop == "C09":
@@ -195,7 +204,8 @@ def violations(prop, scratch):
             joined = d / "joined.rtdc"
             cli.join(paths_in=list(parts), path_out=joined)
             with dclab.new_dataset(joined) as dj:
-                for f in ("area_um", "deform", "bright_avg", "frame"):
+                for f in ("area_um", "deform", "bright_avg", "frame",
+                          "image"):
                     if f not in dj or not same(dj[f][:], ev[f]):
                         bad("dclab.cli.task_join:join", "roundtrip-differs",
                             f"{f} after split(12000)+join of {N} events",
